@@ -224,12 +224,12 @@ impl<Deco: Decoration> fmt::Display for WithContext<'_, Posting<'_, Deco>> {
                 // " =" needs 3 columns to keep two spaces after the account.
                 get_column(50 + trailing, account_width, 3)
             };
+            // pad by hand: a `{:>width$}` argument is limited to 65535 columns and panics beyond.
             write!(
                 f,
-                "{:>width$} {}",
-                " =",
+                "{} = {}",
+                " ".repeat(balance_padding.saturating_sub(2)),
                 self.pass_context(balance.as_undecorated()),
-                width = balance_padding
             )?;
         }
         writeln!(f)?;
